@@ -1,30 +1,8 @@
 (* C05 — JSON Patch application conforms to RFC 6902 for every document and patch.
    Statements only; proofs live in proofs/PatchProofs.v. *)
-From JP Require Import Base Json PyStr Pointer Patch Rfc6901 Rfc6902 PointerDomain PatchProofs.
+From JP Require Import Base Json PyStr Pointer Patch Rfc6901 Rfc6902 PointerDomain PatchCorr PatchProofs.
 
-(* a pointer as JSONPointer(text) builds it: canonical integers as ints, everything else as
-   strings (and no token that triggers a documented pointer extension) *)
-Definition normal_part (x : ppart) : Prop := index_of_text (part_text x) = Ok x.
-Definition std_pointer (p : pointer) : Prop :=
-  Forall normal_part p /\ outside_extensions (tokens p) = true.
-
-(* the RFC 6902 operation a model operation stands for *)
-Inductive corresponds : pop -> rop -> Prop :=
-| CAdd p v : std_pointer p -> corresponds (OpAdd p v) (RAdd (tokens p) v)
-| CRemove p : std_pointer p -> corresponds (OpRemove p) (RRemove (tokens p))
-| CReplace p v : std_pointer p -> corresponds (OpReplace p v) (RReplace (tokens p) v)
-| CMove f p : std_pointer f -> std_pointer p -> corresponds (OpMove f p) (RMove (tokens f) (tokens p))
-| CCopy f p : std_pointer f -> std_pointer p -> corresponds (OpCopy f p) (RCopy (tokens f) (tokens p))
-| CTest p v : std_pointer p -> corresponds (OpTest p v) (RTest (tokens p) v).
-
-(* the result is the RFC's document, or a patch error exactly when the RFC says error
-   (the dedicated test-failure kind exactly for a failed test) *)
-Definition refines (r : result json) (o : outcome) : Prop :=
-  match o with
-  | OOk d => r = Ok d
-  | OError => exists k, r = Err (EPatch k)
-  | OTestFailed => r = Err (EPatch KPatchTest)
-  end.
+(* normal_part, std_pointer, corresponds, refines: see spec/PatchCorr.v *)
 
 Theorem C05_apply :
   forall (ops : list pop) (rops : list rop) (d : json),
